@@ -350,6 +350,9 @@ class R:
         # symbolic denominator: definedness obligation, then continue under den != 0
         if isinstance(a, float):
             raise Unsupported("inf / symbolic")
+        sc = ctx().ufs.sqrt_consts.get(b.get_id())
+        if sc is not None and sc[1] > 0:  # x / sqrt(c) = x sqrt(c) / c for a positive constant c (rationalised)
+            return self * o * R(1 / sc[1])
         ctx().definedness("division by zero", o.z3() != 0)
         if isinstance(a, Fraction) and a == 0:
             return R(0)
@@ -728,6 +731,8 @@ class UFs:
         r, new = self._fresh("sqrt", (xe,))
         if new:
             self.c.axiom(z3.And(r >= 0, r * r == xe))
+        if x.concrete:
+            self.sqrt_consts[r.get_id()] = (r, x.v)
         return R(r)
 
     def exp(self, x):
@@ -950,6 +955,7 @@ class PathResult:
         self.value = value
         self.exc = exc
         self.notes = c.notes
+        self.uf_apps = c.ufs.apps
 
     def __repr__(self):
         return f"<Path {''.join('T' if d else 'F' for d in self.decisions)} exc={self.exc!r}>"
